@@ -2,6 +2,7 @@ package main
 
 import (
 	"fmt"
+	"github.com/go-i2p/common/key_certificate"
 	"reflect"
 	"time"
 )
@@ -63,4 +64,57 @@ func runC04(c *Ctx) {
 		})
 	}
 	c04Codes(c)
+	c04KeyConstructors(c)
+}
+
+// c04KeyConstructors: the exported key constructors on data of EVERY length (exactly that
+// capacity, as a sub-slice of a network buffer has) for every key type code: they return a key
+// or an error, never panic, and agree with the model
+func c04KeyConstructors(c *Ctx) {
+	lens := []int{}
+	for n := 0; n <= 140; n++ {
+		lens = append(lens, n)
+	}
+	lens = append(lens, 200, 255, 256, 257, 300, 383, 384, 385, 512)
+	for _, st := range []int{0, 1, 2, 3, 4, 5, 6, 7, 8, 9, 11, 12, 65280} {
+		for _, ct := range []int{0, 4, 1, 7, 8} {
+			if ct != 0 && st != 7 && st != 0 {
+				continue
+			}
+			kcb := cat([]byte{5, 0, 4}, u16(st), u16(ct))
+			kc, _, err := key_certificate.NewKeyCertificate(cp(kcb))
+			if err != nil || kc == nil {
+				continue
+			}
+			for _, n := range lens {
+				d := make([]byte, n) // len == cap
+				for i := range d {
+					d[i] = byte(c.R.U64())
+				}
+				args := [][]byte{kcb, d}
+				o := c.Case(E_ConstructSPK, args, func() Obs {
+					k, e := kc.ConstructSigningPublicKey(d)
+					if e != nil || k == nil {
+						return ERR()
+					}
+					return OK(k.Bytes())
+				})
+				c.Check("parser_returns_normally", o.Status != "panic", "KeyCertificate.ConstructSigningPublicKey", args, "", "panicked")
+				o2 := c.Case(E_ConstructPK, args, func() Obs {
+					k, e := kc.ConstructPublicKey(d)
+					if e != nil || k == nil {
+						return ERR()
+					}
+					return OK(k.Bytes())
+				})
+				c.Check("parser_returns_normally", o2.Status != "panic", "KeyCertificate.ConstructPublicKey", args, "", "panicked")
+				var pan interface{}
+				func() {
+					defer func() { pan = recover() }()
+					key_certificate.ConstructSigningPublicKeyByType(d, st)
+				}()
+				c.Check("parser_returns_normally", pan == nil, "ConstructSigningPublicKeyByType", args, "", fmt.Sprintf("panicked: %v", pan))
+			}
+		}
+	}
 }
